@@ -12,10 +12,13 @@ const (
 
 // ShouldIncludeNode validates and checks the value of a skip or include directive
 func ShouldIncludeNode(directives []*Directive) (bool, error) {
+	// A node carrying both directives is included only if both allow it.
 	skipDirective := findDirectiveWithName(directives, SKIP)
 	if skipDirective != nil {
 		b, err := parseIf(skipDirective)
-		return !b, err
+		if err != nil || b {
+			return !b, err
+		}
 	}
 
 	includeDirective := findDirectiveWithName(directives, INCLUDE)
